@@ -62,7 +62,10 @@ class Doc(object):
     pass
 
 
-def make_catalog(cutoff=2):
+ALL = ("i0", "i1", "i2", "i3", "i4")
+
+
+def make_catalog(cutoff=2, present=ALL):
     from hypatia.catalog import Catalog
     from hypatia.field import FieldIndex
     from hypatia.keyword import KeywordIndex
@@ -71,18 +74,23 @@ def make_catalog(cutoff=2):
     from hypatia.text.cosineindex import CosineIndex
     from hypatia.text.lexicon import Lexicon, Splitter, CaseNormalizer, StopWordRemover
     cat = Catalog()
-    cat["i0"] = FieldIndex(Disc("f", 0))
-    kw = KeywordIndex(Disc("k", 1))
-    kw.tree_threshold = 2
-    cat["i1"] = kw
-    cat["i2"] = FacetIndex(Disc("c", 2), FACETS)
-    t = TextIndex(Disc("t", 3))
-    t.index.DICT_CUTOFF = cutoff
-    cat["i3"] = t
-    lex = Lexicon(Splitter(), CaseNormalizer(), StopWordRemover())
-    u = TextIndex(Disc("u", 4), lexicon=lex, index=CosineIndex(lex))
-    u.index.DICT_CUTOFF = cutoff
-    cat["i4"] = u
+    if "i0" in present:
+        cat["i0"] = FieldIndex(Disc("f", 0))
+    if "i1" in present:
+        kw = KeywordIndex(Disc("k", 1))
+        kw.tree_threshold = 2
+        cat["i1"] = kw
+    if "i2" in present:
+        cat["i2"] = FacetIndex(Disc("c", 2), FACETS)
+    if "i3" in present:
+        t = TextIndex(Disc("t", 3))
+        t.index.DICT_CUTOFF = cutoff
+        cat["i3"] = t
+    if "i4" in present:
+        lex = Lexicon(Splitter(), CaseNormalizer(), StopWordRemover())
+        u = TextIndex(Disc("u", 4), lexicon=lex, index=CosineIndex(lex))
+        u.index.DICT_CUTOFF = cutoff
+        cat["i4"] = u
     return cat
 
 
@@ -129,7 +137,9 @@ def fmtscore(x):
 
 def observe(cat, ids):
     out = []
-    for name in ("i0", "i1", "i2", "i3", "i4"):
+    for name in ALL:
+        if name not in cat:
+            continue
         ix = cat[name]
         part = [name, "indexed=" + idset(ix.indexed()), "ni=" + idset(ix.not_indexed()),
                 "docids=" + idset(ix.docids()), "ic=%d" % ix.indexed_count(), "nic=%d" % ix.not_indexed_count(),
@@ -336,7 +346,7 @@ def impl_run(hyp, case):
     return out
 
 
-def post_model(hyp, case, mouts):
+def post_model(hyp, case, mouts, iouts=None):
     """`eff k1 k2 ...` -> observation of an in-memory catalog that performed exactly those operations"""
     ops = {c[1]: c for c in case["cmds"] if c[0] == "op"}
     ids = list(range(case["cfg"][0][2]))
